@@ -72,8 +72,8 @@ def run(tier: str, seed: int) -> int:
     for kind, cat, rkind, rcat in ([CONFIGS[0], CONFIGS[1], CONFIGS[4]] if quick else CONFIGS):
         js = shard_jobs("MC_DaskFrame", dict(constants=dict(Kind=kind, Elems="<- " + cat, RKind=rkind, RElems="<- " + rcat, MaxOps=3,
                                                            N=2 if quick else 3, KeyStride=21 if quick else 5),
-                                            invariants=["DaskExact", "CacheFresh"]), 64 if quick else 16, which=range(0, 4) if quick else None,
-                        dump=True, continue_=True, timeout=3000)
+                                            invariants=["DaskExact", "CacheFresh"]), 64 if quick else 16, which=range(0, 4) if quick else range(seed % 2, 16, 2),
+                        dump=True, continue_=True, timeout=3000 if quick else 12000)
         plan.append((kind, cat, rkind, rcat, len(js)))
         jobs += js
     results = run_jobs(jobs)
